@@ -81,6 +81,8 @@ func (g *gen) property(p string) bool {
 		g.genQR()
 	case "C02":
 		g.genDM()
+	case "C03":
+		g.genAztec()
 	case "C04":
 		g.genPDF()
 	case "C05":
